@@ -112,6 +112,11 @@ func c03Arm(p *Program) {
 				return
 			}
 			rec.Ev("params(%s){%s}", id, fmtParams(copyParams(c.Params)))
+			if c.Params != nil {
+				// a handler that keeps a note of its own next to the path parameters (whenever the
+				// request has a parameter map): the map is this request's, nobody else sees the note
+				c.Params["note-of-"+id] = c.Req.Method + " " + c.Req.URL.Path
+			}
 			if bg, ok := rec.Extra["bg"].(*sync.WaitGroup); ok && isMain {
 				// stress mode: "background work" keeps a Copy() of the context beyond the request
 				// and touches it while other requests are served from the pooled contexts
